@@ -163,27 +163,26 @@ def stepLine (st : St) (line : String) : St × List String :=
     let order := ((ord.drop 6).toString.splitOn ",").filterMap (·.toNat?)
     let img : DB := { store := tornFlush st.preFlush order (natOr j), wal := st.db.wal }
     let probes : List String := more.filterMap fun w => if w.startsWith "probe=" then some (w.drop 6).toString else none
-    match recover img [] [] with
-    | .ok db =>
+    let continue_ (head : String) (db : DB) : St × List String :=
       let (db1, tl) := tableLines { db with store := reopen db.store } st.tables
-      if probes.isEmpty then (st, ["recover ok"] ++ tl ++ ["end"]) else
+      if probes.isEmpty then (st, [head] ++ tl ++ ["end"]) else
       -- one more acknowledged statement, a second crash, a second recovery
       let (db2, pl) := runProbes db1 st.tables probes
-      -- a statement that panics ends the inspection of the image
+      -- a statement that panics or runs away ends the inspection of the image
       if pl.any (· == "hang") then
-        (st, ["recover ok"] ++ tl ++ (pl.takeWhile fun l => l != "hang") ++ ["hang", "end"]) else
+        (st, [head] ++ tl ++ (pl.takeWhile fun l => l != "hang") ++ ["hang", "end"]) else
       if pl.any (· == "panic") then
-        (st, ["recover ok"] ++ tl ++ (pl.takeWhile fun l => l != "panic") ++ ["panic", "end"]) else
+        (st, [head] ++ tl ++ (pl.takeWhile fun l => l != "panic") ++ ["panic", "end"]) else
       let againLines : List String := match recover { db2 with store := reopen db2.store } [] [] with
         | .ok db3 => ["again ok"] ++ (tableLines { db3 with store := reopen db3.store } st.tables).2
         | .err _ db3 => ["again initerr"] ++ (tableLines { db3 with store := reopen db3.store } st.tables).2
         | .panic _ => ["again panic"]
         | .unmodelled w => ["again unmodelled " ++ w]
         | .fuel => ["again hang"]
-      (st, ["recover ok"] ++ tl ++ pl ++ againLines ++ ["end"])
-    | .err _ db =>
-      let (_, tl) := tableLines { db with store := reopen db.store } st.tables
-      (st, ["recover initerr"] ++ tl ++ ["end"])
+      (st, [head] ++ tl ++ pl ++ againLines ++ ["end"])
+    match recover img [] [] with
+    | .ok db => continue_ "recover ok" db
+    | .err _ db => continue_ "recover initerr" db
     | .panic _ => (st, ["recover panic", "end"])
     | .unmodelled w => (st, ["recover unmodelled " ++ w, "end"])
     | .fuel => (st, ["recover hang", "end"])
@@ -446,9 +445,11 @@ def judgeLine (j : J) (op : String) (outs : List String) : J × List String :=
     | some d => (j, [vio j "db:cache-size-dependent" s!"capacity={cap} {(d.take 500).toString}"])
     | none => (j, [])
   | "image" :: _ => judgeImage j op outs
-  | "fimage" :: _ :: kind :: alloc :: _ =>
-    -- C04: a crash inside a page flush; every acknowledged statement must survive
-    let cls := s!"{kind}:{if alloc == "alloc=1" then "alloc1" else "alloc0"}"
+  | "fimage" :: jx :: kind :: alloc :: _ =>
+    -- C04: a crash inside a page flush; every acknowledged statement must survive.  The image taken
+    -- before the first page write is the data file as it was before the flush: it is classed apart,
+    -- because nothing of what is known to go wrong with freshly allocated pages can apply to it
+    let cls := s!"{kind}:{if alloc == "alloc=1" then "alloc1" else "alloc0"}{if jx == "0" then ":nothing-written" else ""}"
     let rec0 := outs.head?.getD ""
     let short := (op.take 100).toString
     if rec0 != "recover ok" then (j, [vio j s!"db:fimage-recovery-failed:{cls}" s!"got=[{rec0}] op=[{short}]"]) else
